@@ -159,6 +159,20 @@ RECIPES.update({
     'distribution_result_parameters': dict(name='parameters', cls='distribution_result', self='distribution_result'),
 })
 
+def _h_mpi_rank(em, n, args, dst):
+    return 'vp_mpi_comm_rank(%s, %s)' % (em.emit(args[0]), em.emit(args[1]))
+
+
+def _h_inner_callback(em, n, args, dst):
+    return 'vp_inner_callback_call(%s, %s)' % (em.arg(args[0], None), em.arg(args[1], None))
+
+
+RECIPES.update({
+    'mpi_callback_call': dict(unit='mpi', name='operator()', cls='mpi_callback', self='mpi_callback',
+                              opts=dict(free_calls={'MPI_Comm_rank': _h_mpi_rank}, operator_calls={('callback', 'operator()'): _h_inner_callback},
+                                        member_calls={('callback', 'mode'): (lambda em, n, obj, args, dst: ('vp_callback_set_mode(&(%s), %s)' % (obj, em.emit(args[0]))) if args else ('vp_callback_get_mode(&(%s))' % obj))})),
+})
+
 # ---- fragments: single expressions inside the MPI drivers -----------------------------------
 _SUBP = [('size_t', 'calls'), ('int', 'rank'), ('int', 'world')]
 _DISP = [('size_t', 'calls'), ('int', 'rank'), ('int', 'world'), ('size_t', 'usage')]
@@ -354,6 +368,10 @@ JOBS = [
     dict(name='mid_points_y', functions=['mid_points_y', 'distribution_result_parameters', 'distribution_parameters_x_min', 'distribution_parameters_y_min', 'distribution_parameters_bin_size_x', 'distribution_parameters_bin_size_y', 'distribution_parameters_bins_x', 'distribution_parameters_bins_y'],
          entry='h_mid_points_y', enforce='mid_points_y', af=['mid_points_y'], structs=[dict(cls='distribution_parameters', vec=True), dict(cls='mc_result', vec=True), dict(cls='distribution_result', vec=True)],
          preludes=['opaque.h'], globals='size_t vp_g_rows;', defines=['VP_BINSMAX=1024', 'VP_PUSH_ASSUME_CAP'], props=['C11']),
+    dict(name='mpi_callback', functions=['mpi_callback_call'], entry='h_mpi_callback_call', enforce='mpi_callback_call',
+         structs=[dict(prelude='stubs_mpi.h'), dict(cname='rng_vegas_chkpt', opaque=True), dict(cname='rng_chkpt_plain_result', opaque=True), dict(unit='mpi', cls='mpi_callback')],
+         globals='size_t vp_inner_calls; _Bool vp_inner_ret; const void *vp_inner_arg; int vp_inner_mode_seen; int vp_rank;', props=['C04', 'C20'],
+         trusted=['MPI_Comm_rank stores the rank; the wrapped hep::callback is a stub returning any decision (its decision logic: job callback_decision)']),
     dict(name='refine_weights', functions=['multi_channel_refine_weights'], entry='h_multi_channel_refine_weights',
          enforce='multi_channel_refine_weights', replace=['vp_pow'], af=['multi_channel_refine_weights'], globals='T vp_g_s1, vp_g_s2; _Bool vp_g_nodata;',
          defines=['VP_NMAX=1048576'], props=['C08'], thorough_reals=['float'],
